@@ -19,7 +19,11 @@ Record variant := {
   d14_nat_syn_only : bool;    (* NAT rewrites visible_ep[0] on SYN only       *)
   d18_accept_mss : bool;      (* accepted socket takes its MSS from path_mtu  *)
   d26_writer_wakeup : bool;   (* an ACK wakes a writer that WAS blocked and no longer is *)
-  d11a_drop_guard : bool      (* packet_dropped ignores a socket without a channel *)
+  d11a_drop_guard : bool;     (* packet_dropped ignores a socket without a channel *)
+  d27_synack_guard : bool;    (* a SYN+ACK after a cancelled connect posts no (empty) handler *)
+  d8_drop_unaccounts : bool;  (* packet_dropped takes the segment out of the in-flight account *)
+  d9_drop_cb_kept : bool;     (* the parked segment gets its drop callback back *)
+  d25_resolver_order : bool   (* lookups start no earlier than requested; literals queued in time order *)
 }.
 
 Definition pinned : variant :=
@@ -27,4 +31,5 @@ Definition pinned : variant :=
      d15_udp_release_whole := false; d16_udp_close_clears := false;
      d7_wakeup_fixed := false; d6_close_clears := false; d12_accept_visible_ep := false;
      d13_acceptor_close := false; d14_nat_syn_only := false; d18_accept_mss := false;
-     d26_writer_wakeup := false; d11a_drop_guard := false |}.
+     d26_writer_wakeup := false; d11a_drop_guard := false; d27_synack_guard := false;
+     d8_drop_unaccounts := false; d9_drop_cb_kept := false; d25_resolver_order := false |}.
